@@ -469,13 +469,18 @@ func (w *world) lockViolations(evs []ckit.Event) []string {
 		pods[n.Name] = n.Pod
 	}
 	held := map[string]int{}
+	holders := map[string]bool{} // lock object ids (Event.Arg) that currently hold their lock
 	out := []string{}
 	for _, e := range evs {
 		switch {
 		case e.Kind == "locked":
 			held[e.Node]++
+			holders[e.Arg] = true
 		case e.Kind == "unlock":
-			held[e.Node]--
+			if holders[e.Arg] { // the Unlock after a FAILED Lock releases nothing
+				held[e.Node]--
+				delete(holders, e.Arg)
+			}
 		case usageWrites[e.Kind] || (e.Kind == "pluginGetNodeResourceInfo" && e.Arg == "fix=true"):
 			if p, ok := pods[e.Node]; ok && held["plock_"+p] <= 0 {
 				out = append(out, e.Kind+"@"+e.Node)
